@@ -286,6 +286,109 @@ def run_table_unary(chk, spec):
 	if r.column_names() != use:
 		chk.fail("a unary operation on a table keeps every column name", f"table-arith/unary-names/{spec['opname']}", f"{spec!r}: names {r.column_names()!r}", prop="C18")
 
+def run_call_write_call(chk, spec):
+	"""an operation, then one to three writes with no operation in between, then the operation again: element i is the operation applied to the element the
+	vector holds NOW (storage identities may repeat after two writes: nothing remembered under such an identity may answer)"""
+	import random
+	rng = random.Random(spec["seed"])
+	D = [date(2020, 1, 1) + timedelta(days=7 * i) for i in range(12)]
+	kind = spec["kind"]
+	n = spec["n"]
+	pool_ = {"date": D, "int": list(range(3, 40, 3)), "str": ["ab", "Cd", "e f", "zz", "Q", "mn"], "float": [0.5, 1.5, -2.0, 3.25, 8.0, 1e3]}[kind]
+	vals = [rng.choice(pool_) for _ in range(n)]
+	v = Vector(list(vals))
+	ops = {"date": {"+7": (lambda x: x + 7, lambda e: e + timedelta(days=7)), "+intvec": (lambda x: x + Vector([1] * n), lambda e: e + timedelta(days=1)), "year": (lambda x: x.year, lambda e: e.year), "isoformat": (lambda x: x.isoformat(), lambda e: e.isoformat()),
+			"+timedelta": (lambda x: x + timedelta(days=2), lambda e: e + timedelta(days=2))},
+		"int": {"*2": (lambda x: x * 2, lambda e: e * 2), "bit_length": (lambda x: x.bit_length(), lambda e: e.bit_length()), "2-v": (lambda x: 2 - x, lambda e: 2 - e), "-v": (lambda x: -x, lambda e: -e)},
+		"str": {"upper": (lambda x: x.upper(), lambda e: e.upper()), "+s": (lambda x: x + "!", lambda e: e + "!"), "*2": (lambda x: x * 2, lambda e: e * 2), "zfill": (lambda x: x.zfill(4), lambda e: e.zfill(4))},
+		"float": {"hex": (lambda x: x.hex(), lambda e: e.hex()), "/2": (lambda x: x / 2, lambda e: e / 2), "is_integer": (lambda x: x.is_integer(), lambda e: e.is_integer())}}[kind]
+	f, m = ops[spec["op"]]
+	first = call(f, v)
+	cur = list(vals)
+	for _ in range(spec["writes"]):
+		i = rng.randrange(n)
+		x = rng.choice(pool_)
+		how = rng.choice(["item", "slice", "mask", "idx"])
+		w = call({"item": lambda: v.__setitem__(i, x), "slice": lambda: v.__setitem__(slice(i, i + 1), [x]), "mask": lambda: v.__setitem__([j == i for j in range(n)], x), "idx": lambda: v.__setitem__([i], [x])}[how])
+		if w.ok:
+			cur[i] = x
+	second = call(f, v)
+	chk.judged("arith-value", ("call-write-call", kind, spec["op"], spec["writes"], n))
+	if not M.same_list(list(v._underlying), cur):
+		chk.skip("call-write-call-writes-differ")
+		return
+	exp = [m(e) for e in cur]
+	if not second.ok:
+		chk.fail("serif computes what Python defines", f"arith/raises-where-python-defines/after-writes/{kind}/{spec['op']}/{type(second.exc).__name__}", f"{spec!r}: {second!r}")
+		return
+	got = list(second.value._underlying)
+	if M.first_diff(got, exp):
+		chk.fail("element i of the result is the operation applied to element i", f"arith/stale-after-writes/{kind}/{spec['op']}/{spec['writes']}-writes", f"{spec!r}: vector now {cur!r}: {spec['op']} gives {short(got, 160)}, expected {short(exp, 160)}")
+
+
+def run_row_method(chk, spec):
+	"""a row of a table is a vector: the broadcast methods and properties of its cells' type work through it exactly as through a column"""
+	kind = spec["kind"]
+	cells = {"str": [["alpha", "banana", "cat a"], ["a1", "ba", "aaa"]], "int": [[5, 255, 1024], [0, 7, 9]], "date": [[date(2020, 1, 31), date(2021, 2, 28), date(1999, 12, 31)], [date(2000, 1, 1), date(2024, 2, 29), date(2010, 6, 15)]]}[kind]
+	t = Table({f"c{j}": [cells[0][j], cells[1][j]] for j in range(3)})
+	name, args = spec["method"]
+	rows = [t[spec["i"]]] if spec["via"] == "index" else [r for r in t]
+	if spec["via"] == "iter":
+		rows = None
+	chk.judged("method", ("row-method", kind, name, spec["via"]))
+	def one(r, i):
+		attr = call(getattr, r, name)
+		if not attr.ok:
+			return attr
+		return call(attr.value, *args) if callable(attr.value) and not isinstance(attr.value, Vector) else attr
+	results = []
+	if spec["via"] == "index":
+		results.append((spec["i"], one(t[spec["i"]], spec["i"])))
+	else:
+		for i, r in enumerate(t):
+			o = one(r, i)
+			results.append((i, call(lambda: list(o.value)) if o.ok and isinstance(o.value, Vector) else o))
+	for i, o in results:
+		row = cells[i]
+		try:
+			exp = [getattr(c, name)(*args) if callable(getattr(type(c), name, None)) or callable(getattr(c, name)) else getattr(c, name) for c in row]
+		except Exception:
+			continue
+		if not o.ok:
+			chk.fail("a broadcast method applies to every element", f"method/raises/row/{kind}.{name}/{type(o.exc).__name__}", f"{spec!r}: row {i} = {row!r}: {o!r}; per cell {exp!r}")
+			return
+		got = list(o.value) if isinstance(o.value, (Vector, list)) else o.value
+		if got != exp:
+			chk.fail("element i of the result is the method applied to element i", f"method/element-mismatch/row/{kind}.{name}", f"{spec!r}: row {i} = {row!r}: got {got!r}, per cell {exp!r}")
+			return
+
+
+def run_str_format_sequence(chk, spec):
+	"""strings % sequence: a tuple is a plain sequence like a list - element-wise for equal lengths, an error otherwise"""
+	fmts = list(spec["fmts"])
+	args = spec["args"]
+	v = Vector(list(fmts))
+	for form, mk in (("tuple", tuple), ("list", list), ("vector", lambda a: Vector(list(a)))):
+		if form == "vector" and any(isinstance(a, tuple) for a in args):
+			continue
+		o = call(lambda: v % mk(args))
+		chk.judged("arith-value", ("str-format-sequence", form, len(fmts), len(args)))
+		if len(args) != len(fmts):
+			if o.ok:
+				chk.fail("lengths that differ raise an error - nothing is truncated, recycled or broadcast", f"arith/length-mismatch-accepted/str-mod-{form}", f"{spec!r}: {short(o.value, 120)}")
+				return
+			continue
+		try:
+			exp = [None if f is None else f % a for f, a in zip(fmts, args)]
+		except Exception:
+			continue
+		if not o.ok:
+			chk.fail("serif computes what Python defines", f"arith/raises-where-python-defines/str-mod-{form}/{type(o.exc).__name__}", f"{spec!r}: {o!r}; python {exp!r}")
+			return
+		if list(o.value._underlying) != exp:
+			chk.fail("element i is exactly what Python computes for the i-th operands in written order", f"arith/element-mismatch/str-mod-{form}", f"{spec!r}: {list(o.value._underlying)!r} vs {exp!r}")
+			return
+
 
 def run_table_arith(chk, spec):
 	"""table (op) scalar / table (op) table equals the vector operation per column"""
@@ -498,7 +601,7 @@ def run_helper(chk, spec):
 			f"Vector({short(vals, 120)}).{name}({sep!r}): serif {short(got, 160)} vs documented {short(exp, 160)}: {d}")
 
 
-RUNNERS = {"table_unary": run_table_unary, "table_columnwise": run_table_columnwise, "unsized": run_unsized, "symbolic": run_symbolic, "identity": run_identity, "row_arith": run_row_arith, "helper": run_helper, "arith": run_arith, "table_arith": run_table_arith, "method": run_method, "date_days": run_date_days, "recompute": recompute.runner("C05")}
+RUNNERS = {"call_write_call": run_call_write_call, "row_method": run_row_method, "str_format_sequence": run_str_format_sequence, "table_unary": run_table_unary, "table_columnwise": run_table_columnwise, "unsized": run_unsized, "symbolic": run_symbolic, "identity": run_identity, "row_arith": run_row_arith, "helper": run_helper, "arith": run_arith, "table_arith": run_table_arith, "method": run_method, "date_days": run_date_days, "recompute": recompute.runner("C05")}
 
 PAIRS = [("int", "int"), ("int", "float"), ("float", "int"), ("bool", "int"), ("int", "complex"), ("float", "float"), ("str", "str"),
 	("str", "int"), ("date", "timedelta"), ("datetime", "timedelta"), ("timedelta", "timedelta"), ("timedelta", "int"), ("list", "list"),
@@ -551,6 +654,22 @@ def run(chk):
 	rng = chk.rng
 	for spec in product_specs(chk):
 		chk.case("arith", spec, "arith-" + spec["form"])
+	for kind, opnames in (("date", ["+7", "+intvec", "year", "isoformat", "+timedelta"]), ("int", ["*2", "bit_length", "2-v", "-v"]), ("str", ["upper", "+s", "*2", "zfill"]), ("float", ["hex", "/2", "is_integer"])):
+		for opn in opnames:
+			for writes in (1, 2, 2, 3, 4):
+				for n in (1, 3, 6):
+					for rep in range(2 if chk.quick() else 6):
+						chk.case("call_write_call", {"kind": kind, "op": opn, "writes": writes, "n": n, "seed": rng.randrange(10**9)}, "call-write-call")
+	for kind, methods in (("str", [("index", ("a",)), ("find", ("a",)), ("count", ("a",)), ("upper", ()), ("startswith", ("a",)), ("replace", ("a", "o")), ("split", ("a",)), ("zfill", (7,)), ("rindex", ("a",)), ("title", ()), ("encode", ())]),
+			("int", [("bit_length", ()), ("to_bytes", (4, "big")), ("conjugate", ()), ("real", ())]), ("date", [("year", ()), ("isoformat", ()), ("weekday", ()), ("replace", (2001,)), ("day", ())])):
+		for method in methods:
+			for via in ("index", "iter"):
+				for i in (0, 1):
+					if via == "iter" and i:
+						continue
+					chk.case("row_method", {"kind": kind, "method": method, "via": via, "i": i}, "row-method")
+	for fmts, args in ((["%s!", "%05.1f", None, "id-%d"], ["a", 2.5, "x", 7]), (["%s %s", "%s-%s"], [(1, 2), (3, 4)]), (["%s-%s-%s", "%d%d%d"], [1, 2, 3]), (["%s", "%s"], ["a", "b"]), (["%s"], ["a", "b"]), (["%d", "%d", "%d"], [1, 2]), (["%(k)s"], [{"k": 1}]), (["x", "y"], [(), ()])):
+		chk.case("str_format_sequence", {"fmts": fmts, "args": args}, "str-format-sequence")
 	for use in (["k"], ["k", "x"], ["x", "k", "z"], ["k", "b"], ["k", "k" if False else "x", "z", "b"]):
 		for opname in ("neg", "pos", "abs"):
 			for n in (1, 2, 3, 5):
